@@ -77,6 +77,14 @@ Fixpoint poly_sum_gen (N : Num) (cur : carrier N) (vs : list (V3 N)) (o : V3 N) 
   end.
 Definition poly_sum (cur : R) (vs : list RV3) : RV3 -> RV3 := fun o => poly_sum_gen NumR cur vs o.
 
+(* the same for field = "B": every segment row is multiplied by MU0 before the sum *)
+Fixpoint poly_sumB_gen (N : Num) (mu0 cur : carrier N) (vs : list (V3 N)) (o : V3 N) : V3 N :=
+  match vs with
+  | v1 :: ((v2 :: _) as tl) => vadd N (polyline_BH N FB mu0 o v1 v2 cur) (poly_sumB_gen N mu0 cur tl o)
+  | _ => zero3 N
+  end.
+Definition poly_sumB (mu0 cur : R) (vs : list RV3) : RV3 -> RV3 := fun o => poly_sumB_gen NumR mu0 cur vs o.
+
 (* textbook closed form of the H-field of a straight segment p1 -> p2 carrying cur:
    H = cur/(4 pi) * (e x a) / |e x a|^2 * (a.e/|a| - b.e/|b|),  a = o - p1, b = o - p2, e = p2 - p1;
    seg_D a e = |e|^2 |a|^2 - (a.e)^2 = |e x a|^2 *)
